@@ -24,7 +24,7 @@ claim("C02", CONC,
       "Per-function proofs for every schedule: (1) the attack goroutine (Attack$1 with its deferred closure) on EVERY exit path runs close(ticks); wg.Wait(); close(results); Stop() in exactly this order, never sends a tick after closing, and registers every worker with the WaitGroup before starting it; "
       "(2) the worker delivers exactly one result per received tick, the one hit returned, and calls Done once; (3) hit always returns a non-nil result, takes its sequence number inside the seqmu critical section where it is incremented by exactly one (so numbers are gap-free: monitor), and calls Stop when the targeter fails; "
       "(4) Stop, verified under interference (shared ghost flags havocked at every yield point under a monotone rely), returns true iff this call's Once function closed the stop channel.",
-      "Trusted lemma (not checked): unbuffered-channel, WaitGroup and sync.Once semantics compose (1)-(4) into 'every started hit yields exactly one result before results is closed' and 'exactly one Stop caller gets true'. Not covered: no goroutine left behind / liveness of shutdown (needs a fairness assumption on the consumer); the CLI signal pump in package main. Stubs: sync, time, http, io.",
+      "Trusted lemma (not checked): unbuffered-channel, WaitGroup and sync.Once semantics compose (1)-(4) into 'every started hit yields exactly one result before results is closed' and 'exactly one Stop caller gets true'. (5) the command's processAttack loop, verified under the same interference, writes every result it receives exactly once, the one just received, in the order received, and ends without error only when the channel is closed or a second signal arrives (results received from the attack are assumed non-nil: proved for the sender in (2)). Not covered: no goroutine left behind / liveness of shutdown (needs a fairness assumption on the consumer); the set-up code of attack() in package main (over-approximated, see C19). Stubs: sync, time, http, io.",
       "DESIGN.md 8/C02")
 
 claim("C03", CONC,
@@ -69,7 +69,8 @@ claim("C19", PROOF,
       "Proof over uninterpreted library parsers (atoi, pdur, dsize, split, trim as spec functions): rateFlag.Set stores exactly N and D of 'N/D' (D defaults to 1s, a bare unit means one of it), 'infinity' and 0 give Freq 0, malformed counts/units are rejected; headers.Set appends the trimmed value under the case-preserved trimmed key and leaves every other key untouched; "
       "csl.Set, maxBodyFlag.Set (-1, documented sizes, overflow rejected), dnsTTLFlag.Set, connectToFlag.Set (exactly four parts, validated, appended to the source's list, other sources untouched) and resolver normalizeAddrs (':53' appended iff no colon, order kept, host must be an IP, port a uint16) each meet their documented meaning for every input string.",
       "Trusted: go/ssa builder, govc, solvers; assumed contracts of strconv.Atoi/ParseUint, time.ParseDuration, strings.Split/SplitN/TrimSpace/Contains, net.SplitHostPort/ParseIP, datasize.UnmarshalText. "
-      "Not covered: that a rate's printed form parses back (fmt.Sprintf is opaque), the unlimited-rate guard inside attack() (function not under contract), flag package plumbing.",
+      "attack(): an unlimited rate (Freq == 0, which both 0 and infinity give) together with the default -max-workers is refused before anything is set up and before any attack starts - proved with every call attack() makes afterwards over-approximated as 'may change anything, returns anything' (pragma unknowncalls havoc) and with the panic-freedom and callee preconditions of that set-up code ASSUMED (pragma obligations contract; counts in the evidence). "
+      "Not covered: that a rate's printed form parses back (fmt.Sprintf is opaque), flag package plumbing.",
       "DESIGN.md 8/C19")
 
 claim("C20", PROOF,
@@ -95,7 +96,8 @@ claim("C17", PROOF + "; floats as reals for lttb",
       "the first and the last point of the input included and every other output point being input point six(k) with 1 <= six(1) < six(2) < ... < count-1 (a subsequence) -- loop invariant over the bucket arithmetic, all index/overflow obligations discharged; sample always returns a point of the current bucket. "
       "labeledSeries.add buffers out-of-order results by sequence number and releases them in sequence order, each exactly once (buffer' = buffer + {seq} - released run; released as far as possible), at x = (timestamp - timestamp of seq 0)/1e6 ms; timeSeries.add pushes a point exactly once or rejects it leaving the series unchanged.",
       "Assumption: machine floating point treated as mathematical reals in Downsample (IEEE rounding of float64(i+1)*size could move a bucket boundary by one; the code's len(points)==0 fallback tolerates that, the proof does not model it). Trusted: Iter type contract (assumed for timeSeries.iter), tsz stubs, Labeler type contract. Stated: count <= 2^61, attack shorter than 292 years, each sequence number added once, timestamps follow sequence order (C05). "
-      "Not covered: Plot.data (row assembly, NaN padding, sort), timeSeries.iter, HTML/JSON text emitted, tsz compression.",
+      "Plot.data (floats as reals): given well-formed series (len == points pushed) it asks Downsample for every series with that series' own iterator and length, emits exactly one row per downsampled point, each row with one column per series plus x, labels[0] == \"Seconds\", and returns the rows sorted by x (sort.Sort's effect is the stated assumption 'orders by Less', with dataPoints.Less proved to compare the x column and Swap to exchange two rows; sort.Slice is assumed to permute the series). "
+      "Not covered: Plot.Add/WriteTo/plotRun (the representation invariant of the plot - distinct series own distinct tsz buffers - is a precondition of Plot.data, not proved to be maintained), timeSeries.iter (trusted contract: iterates the pushed points from the first), NaN padding of the other columns, HTML/JSON text emitted, tsz compression.",
       "DESIGN.md 8/C17")
 
 claim("C07", PROOF,
